@@ -22,6 +22,11 @@ ASSUMPTIONS = c06.ASSUMPTIONS + ['a closure posted to the mock pump while it is 
                                  'before resume (harness-owned pump)']
 
 
+from collections import Counter  # noqa: E402
+
+INCONCLUSIVE = Counter()
+
+
 def plan(info):
     steps = []
     for p in info.ports:
@@ -87,12 +92,19 @@ def judge(info, st_, lines, what):
     paused = notes['paused']
     if role == 'mts-in':
         probe, wp = notes.get('probe'), notes.get('waitposted')
-        if not wp or not wp['ok'] or wp['posted'] != paused['posted'] + 1:
-            raise Fail(f'{what}: multi-threaded provides event did not post exactly one closure to '
-                       f'the dispatcher (posted {paused["posted"]} -> {wp and wp["posted"]})',
-                       f'{role}:not-posted')
-        if probe['helpers_done'] != 0 and order.index('probe') < order.index('resuming'):
-            pass
+        i_res_, i_r_ = order.index('resuming'), order.index('r')
+        if not wp or not wp['ok']:
+            # nothing was posted within the wait: decisive only if the call has already returned
+            # (it bypassed the dispatcher); a helper thread that simply did not get to run yet on a
+            # loaded machine is no verdict
+            if i_r_ < i_res_ or (probe and probe['helpers_done'] > 0):
+                raise Fail(f'{what}: the call returned while the dispatcher was paused and without '
+                           f'posting anything to it ({order})', f'{role}:not-posted')
+            INCONCLUSIVE['mts-in:helper-thread-not-scheduled-in-time'] += 1
+            return
+        if wp['posted'] != paused['posted'] + 1:
+            raise Fail(f'{what}: multi-threaded provides event posted {wp["posted"] - paused["posted"]} '
+                       f'closures to the dispatcher instead of one', f'{role}:not-posted')
         i_h, i_res, i_r = order.index('h'), order.index('resuming'), order.index('r')
         if i_r < i_res:
             raise Fail(f'{what}: the caller returned before the dispatcher ran the event ({order})',
@@ -212,3 +224,5 @@ def run(ctx):
                             for k in ('sts', 'mts'))
             ctx.classes[f'{side}:{form}'] += 1
     ctx.extra['models'] = len(cases)
+    for k, v in INCONCLUSIVE.items():
+        ctx.inconclusive[k] += v
